@@ -667,6 +667,37 @@ def _coeff_into_result(repo, f, var, depth=0, seen=()):
     return None
 
 
+def _nothing_injected_facts(repo, f, node):
+    """(carry known to be 0, deque known to be empty) from the conditions dominating `node`; a condition that is a call
+    of a same-class predicate with a single `return <expr>` stands for that expression."""
+    from ..core import atoms
+    todo = list(facts(node, f.node))
+    carry0 = empty = False
+    seen = 0
+    while todo and seen < 40:
+        seen += 1
+        e, pol = todo.pop()
+        if pol and isinstance(e, ast.Call) and isinstance(e.func, ast.Attribute) and ap(e.func.value) in ("self", "cls") and f.cls is not None:
+            m = repo.lookup_method(f.cls, e.func.attr)
+            rets = [r for r in walk(m.node) if isinstance(r, ast.Return)] if m is not None else []
+            if len(rets) == 1 and rets[0].value is not None:
+                todo.extend(atoms(rets[0].value, True))
+            continue
+        if isinstance(e, ast.Compare) and len(e.ops) == 1:
+            l, r, op = e.left, e.comparators[0], e.ops[0]
+            zero = lambda x: isinstance(x, ast.Constant) and x.value == 0 and not isinstance(x.value, bool)   # noqa: E731
+            is_eq = (isinstance(op, ast.Eq) and pol) or (isinstance(op, ast.NotEq) and not pol)
+            if is_eq and ((ap(l) == CARRY and zero(r)) or (ap(r) == CARRY and zero(l))):
+                carry0 = True
+            if is_eq and ((_is_len_deq(l) and zero(r)) or (_is_len_deq(r) and zero(l))):
+                empty = True
+        elif ap(e) == CARRY and not pol:
+            carry0 = True
+        elif ap(e) == DEQ and not pol:
+            empty = True
+    return carry0, empty
+
+
 def r3_symmetry(ctx, rule_id="C04.R3"):
     repo = ctx.repo
     ctx.rule(rule_id, "forward/inverse symmetry: get_effective_id adds _injection_base exactly once on every returning "
@@ -687,7 +718,15 @@ def r3_symmetry(ctx, rule_id="C04.R3"):
             return x in shift_nodes
         rets = [x for x in cfg.nodes if x.kind == "stmt" and isinstance(x.ast, ast.Return)]
         ctx.floor(rule_id, f"returns in {meth}", len(rets), 1)
+        id_params = [a.arg for a in f.node.args.args if a.arg != "self"][:1]
         for r in rets:
+            # a return that is only reached while nothing was ever injected (carry == 0 and no tracked injection) has
+            # nothing to apply: the ID maps to itself in both directions
+            carry0, empty = _nothing_injected_facts(repo, f, r.ast)
+            if carry0 and empty and isinstance(r.ast.value, ast.Name) and r.ast.value.id in id_params:
+                ctx.ob(rule_id, f"{f.qual}: `{norm(r.ast)}` under 'nothing injected yet' returns the ID unchanged", True, ctx.w(f, r.ast),
+                       "carry is 0 and the deque is empty on this path")
+                continue
             if is_shift(r):
                 wit = None
             else:
